@@ -57,6 +57,8 @@ def configs(tier, seed):
         _cfg((3, 2, 2), "uint8", [], scaling=[0.5, 10.0], conv_opts=["--ignore-scaling", "--input-min", "0", "--input-max", "256"]),
         _cfg((3, 2, 1), "int16", [], scaling=[0.5, 10.0], conv_opts=["--input-min", "0", "--input-max", "128"]),
         _cfg((2, 2, 2), "uint8", ["--flat"], scaling=[0.5, 10.0], conv_opts=["--ignore-scaling"]),
+        _cfg((3, 2, 1), "uint8", [], conv_opts=["--input-max", "128"]),          # --input-max alone (no --input-min), no header scaling
+        _cfg((2, 2, 2), "uint16", ["--no-gzip"], conv_opts=["--input-min", "16", "--input-max", "80"]),
     ]
     if tier == "thorough":
         out += [_cfg((260, 2, 1), "uint8", ["--downscaling-method", "average"]), _cfg((130, 130, 1), "uint8", ["--flat", "--no-gzip"], cost=20),
